@@ -22,7 +22,7 @@ theorem addNat_nil (G : DiG) : G.addNat [] = .ok G := rfl
 
 theorem addNat_cons (G : DiG) (e : Nat × Nat) (es : List (Nat × Nat)) :
     G.addNat (e :: es) = (G.addEdge e.1 e.2 >>= fun g => g.addNat es) := by
-  simp [addNat, addEdgesFrom, List.foldlM]
+  simp [addNat, addEdgesFrom]
 
 theorem addEdge_nat (G : DiG) (u v : Nat) (h : 1 ≤ u ∧ u ≤ G.n ∧ 1 ≤ v ∧ v ≤ G.n) :
     ∃ G', G.addEdge u v = .ok G' ∧ G'.n = G.n ∧
@@ -117,7 +117,7 @@ theorem addNat_nil (G : SimpleG) : G.addNat [] = .ok G := rfl
 
 theorem addNat_cons (G : SimpleG) (e : Nat × Nat) (es : List (Nat × Nat)) :
     G.addNat (e :: es) = (G.addEdge e.1 e.2 >>= fun g => g.addNat es) := by
-  simp [addNat, addEdgesFrom, List.foldlM]
+  simp [addNat, addEdgesFrom]
 
 /-- one `add_edge(u, v)` on a simple graph, `u ≠ v` inside the graph -/
 theorem addEdge_nat (G : SimpleG) (u v : Nat) (h : 1 ≤ u ∧ u ≤ G.n ∧ 1 ≤ v ∧ v ≤ G.n ∧ u ≠ v) :
